@@ -366,6 +366,28 @@ def network_case():
     return Case(cid, run, functions=["RDNetwork.__init__", "RDNetwork._assert_validity"], max_paths=2000)
 
 
-CASES = [parse_case(w, c) for w in ("left", "right") for c in range(NCHUNK)] + [malformed_case(), setter_case(), split_case(),
+def label_alphabet_case(api):
+    """a permitted label survives printing and parsing: labels containing any whitespace character or '+' are refused, for
+    species and for reaction labels (finite alphabet)"""
+    import string
+    N = api.mod("rdnetwork")
+    P = "C19/label-alphabet"
+    for ch in list(string.whitespace) + ["+"]:
+        for lab in ("A%sb" % ch, "%sA" % ch, "A%s" % ch):
+            sp = api.call(lambda: N.Species(lab))
+            api.check(P + "/species-label-with-%r-refused" % ch, not sp.ok, "label %r accepted" % lab)
+            rl = api.call(lambda: N.Reaction("A -> B", label=lab))
+            api.check(P + "/reaction-label-with-%r-refused" % ch, not rl.ok, "label %r accepted" % lab)
+    for lab in ("A", "Ab_1", "x.y", "α", "A-", "a>b"):
+        sp = api.call(lambda: N.Species(lab))
+        api.check(P + "/plain-label-accepted/%s" % lab, sp.ok)
+        if sp.ok:
+            r = api.call(lambda: N.Reaction("2 %s -> " % lab))
+            api.check(P + "/accepted-label-parses-in-an-equation/%s" % lab, r.ok and r.value.get_substrate_stoichiometry(lab) == 2)
+
+
+CASES = [Case("label-alphabet", label_alphabet_case, functions=["assert_string_is_a_valid_label", "Species.label", "Reaction.label"],
+              sym=False, bounded="6 whitespace characters and '+', 3 positions; 6 permitted labels")] + \
+        [parse_case(w, c) for w in ("left", "right") for c in range(NCHUNK)] + [malformed_case(), setter_case(), split_case(),
          eqconst_case(False), eqconst_case(True), eqconst_mixed_case("kr"), eqconst_mixed_case("kf"),
          network_case()]
